@@ -23,7 +23,8 @@ CONSTANTS NSc,          \* scenarios are numbered 1..NSc
           ScWire(_),    \* the bytes that arrive in scenario i
           ScKind(_),    \* "req" (a server reads requests) | "resp" (a client reads responses)
           ScMsgs(_),    \* number of messages in scenario i
-          MaxPieces     \* the bytes arrive in at most that many pieces
+          MaxPieces,    \* the bytes arrive in at most that many pieces
+          MaxK          \* no piece is longer than that (a constant bound lets TLC label Deliver(k) edges)
 
 VARIABLES sc,       \* the scenario
           sent,     \* number of bytes delivered so far
@@ -38,8 +39,12 @@ vars == <<sc, sent, pieces, closed, fresh, nth, p, obs>>
 Min(S) == CHOOSE x \in S : \A y \in S : x <= y
 Max(S) == CHOOSE x \in S : \A y \in S : x >= y
 Rest(s, i) == SubSeq(s, i, Len(s))
-Find(s, c) == LET I == {i \in 1..Len(s) : s[i] = c} IN IF I = {} THEN 0 ELSE Min(I)
-FindCRLF(s) == LET I == {i \in 1..(Len(s) - 1) : s[i] = CR /\ s[i + 1] = LF} IN IF I = {} THEN 0 ELSE Min(I)
+\* position of the first byte c / the first CR LF pair in s, 0 if there is none (scans from the left, stops at the first)
+RECURSIVE ScanFor(_, _, _), ScanCRLF(_, _)
+ScanFor(s, c, i) == IF i > Len(s) THEN 0 ELSE IF s[i] = c THEN i ELSE ScanFor(s, c, i + 1)
+ScanCRLF(s, i) == IF i >= Len(s) THEN 0 ELSE IF s[i] = CR /\ s[i + 1] = LF THEN i ELSE ScanCRLF(s, i + 1)
+Find(s, c) == ScanFor(s, c, 1)
+FindCRLF(s) == ScanCRLF(s, 1)
 Strip(s) == LET I == {i \in 1..Len(s) : ~IsWS(s[i])} IN IF I = {} THEN <<>> ELSE SubSeq(s, Min(I), Max(I))
 
 (* ---- the pieces of syntax ---- *)
@@ -152,7 +157,7 @@ Again == /\ p.phase = "done" /\ ~fresh /\ nth < ScMsgs(sc)
          /\ nth' = nth + 1 /\ fresh' = TRUE
          /\ UNCHANGED <<sc, sent, pieces, closed>>
 
-Next == \/ \E k \in 1..Len(W) : Deliver(k)
+Next == \/ \E k \in 1..MaxK : Deliver(k)
         \/ Parse \/ ParseAgain \/ Close \/ Again
 Spec == Init /\ [][Next]_vars
 
@@ -165,5 +170,5 @@ Whole(q, kind, cl, n) == LET r == Run(q, kind, cl) IN
 SplitIndependent == ~fresh => p = Whole([P0 EXCEPT !.buf = SubSeq(W, 1, sent)], ScKind(sc), closed, nth - 1)
 ObsIsFunctionOfParser == obs = Obs(p)
 \* nothing is lost: consumed + reported + unconsumed bytes account for everything delivered
-BufferIsSuffix == \E i \in 0..sent : p.buf = SubSeq(W, i + 1, sent)
+BufferIsSuffix == Len(p.buf) <= sent /\ p.buf = SubSeq(W, sent - Len(p.buf) + 1, sent)
 =============================================================================
